@@ -56,7 +56,12 @@ TICK = 0.1
 # * result.group(1) will contain the digit string for a chunk
 # * result.group(2) will be defined if '##' found
 #
-RE_NC11_DELIM = re.compile(r'\n(?:#([0-9]+)|(##))\n')
+# Both are matched against the raw bytes, so that offsets are byte offsets
+# whatever the payload contains; chunk-size is `1*DIGIT1 0*DIGIT` (RFC 6242).
+#
+RE_NC11_DELIM = re.compile(br'\n(?:#([1-9][0-9]*)|(##))\n')
+# Proper prefixes of a delimiter: more data is needed to tell.
+RE_NC11_DELIM_PARTIAL = re.compile(br'\n(?:#(?:[1-9][0-9]*|#)?)?')
 
 def textify(buf):
     return buf.decode('UTF-8')
@@ -167,14 +172,16 @@ class DefaultXMLParser:
         while True and start < data_len:
             # match to see if we found at least some kind of delimiter
             self.logger.debug('_parse11: matching from %d bytes from start of buffer', start)
-            re_result = RE_NC11_DELIM.match(data[start:].decode('utf-8', errors='ignore'))
+            re_result = RE_NC11_DELIM.match(data[start:])
             if not re_result:
 
-                # not found any kind of delimiter just break; this should only
-                # ever happen if we just have the first few characters of a
-                # message such that we don't yet have a full delimiter
-                self.logger.debug('_parse11: no delimiter found, buffer="%s"', data[start:].decode())
-                break
+                # no complete delimiter here: either we just have the first
+                # few bytes of one and wait for the rest, or what we have can
+                # never become one and the chunk framing is broken
+                if RE_NC11_DELIM_PARTIAL.fullmatch(data[start:]):
+                    self.logger.debug('_parse11: incomplete delimiter, waiting for more data')
+                    break
+                raise NetconfFramingError('_parse11: expected chunk or end-of-chunks delimiter', data[start:])
 
             # save useful variables for reuse
             re_start = re_result.start()
@@ -190,6 +197,8 @@ class DefaultXMLParser:
                 # we've found the end of the message, need to form up
                 # whole message, save back remainder (if any) to buffer
                 # and dispatch the message
+                if not self._session._message_list:
+                    raise NetconfFramingError('_parse11: end-of-chunks delimiter without a chunk', data[start:])
                 start += re_end
                 # chunks are cut at octet granularity: decode the whole message
                 message = textify(b''.join(self._session._message_list))
